@@ -86,6 +86,106 @@ theorem canonRxn_fix (key : LGraph → Nat → Nat) (hkey : KeyInvariant key) (G
   have e2 : H' = (renumber (extOf (pos (canonOrder key G)) G.ids) (G, H)).2 := (congrArg Prod.snd hout).symm
   rw [e1, e2, canonRxn_numbering_indep key hkey G H h hinj _ hext hposv, hform]
 
+/-- **C09, product atoms without a reactant partner never collide (repair of F23, commit 270bb6f).**
+For well-formed `G`, `H` — `H` may have atoms whose map number does not occur in `G`, and the
+`atom_map` attributes are arbitrary — and a back-end labelling that is injective on the reactant
+atoms, the repaired canonicaliser never answers `collision` (nor `KeyError`); it raises `ValueError`
+exactly when the product graph has no atom; otherwise it succeeds, the reactant graph is relabelled
+by `lab`, and the product graph is relabelled by a (globally) injective `ρ` which sends every product
+atom that shares its map number with a reactant atom to that atom's canonical id and every other
+product atom to an id above all canonical reactant ids. (Both then get their maps synced.) -/
+theorem canonRxnWith_unpaired_no_collision (lab : Nat → Nat) (G H : LGraph) (hG : G.WF) (hH : H.WF)
+    (hinj : ∀ a ∈ G.ids, ∀ b ∈ G.ids, lab a = lab b → a = b) :
+    canonRxnWith lab G H ≠ .error .collision ∧ canonRxnWith lab G H ≠ .error .missing ∧
+    (H.nodes = [] → canonRxnWith lab G H = .error .emptyMap) ∧
+    (H.nodes ≠ [] → ∃ ρ : Nat → Nat, Function.Injective ρ ∧
+      canonRxnWith lab G H = .ok (sync (G.relabel lab), sync (H.relabel ρ)) ∧
+      (∀ g h, (g, h) ∈ aamPairs (G.relabel lab) H → ρ h = g) ∧
+      (∀ h ∈ H.ids, (∀ g, (g, h) ∉ aamPairs (G.relabel lab) H) → ∀ a ∈ G.ids, lab a < ρ h)) := by
+  have hGc : (G.relabel lab).ids.Nodup := by
+    rw [ids_relabel]; exact nodup_map_injOn lab G.ids hG.1 hinj
+  obtain ⟨hE, hO⟩ := remapGraph_fullPairs (G.relabel lab) H hGc hH.1
+  have hok : H.nodes ≠ [] → ∃ ρ : Nat → Nat, Function.Injective ρ ∧
+      canonRxnWith lab G H = .ok (sync (G.relabel lab), sync (H.relabel ρ)) ∧
+      (∀ g h, (g, h) ∈ aamPairs (G.relabel lab) H → ρ h = g) ∧
+      (∀ h ∈ H.ids, (∀ g, (g, h) ∉ aamPairs (G.relabel lab) H) → ∀ a ∈ G.ids, lab a < ρ h) := by
+    intro hn
+    refine ⟨extOf (pairMap (fullPairs (G.relabel lab) H)) H.ids,
+      extOf_inj _ _ (pairMap_fullPairs_injOn (G.relabel lab) H hGc hH.1), ?_, ?_, ?_⟩
+    · rw [canonRxnWith_def, hO hn, ← relabel_extOf _ H.ids H (fun _ hv => hv) hH]
+    · intro g h hm
+      rw [extOf_eq _ _ _ (aamPairs_mem_ids hm).2]
+      exact pairMap_fullPairs _ H hGc hH.1 g h (List.mem_append_left _ hm)
+    · intro h hh hun a ha
+      obtain ⟨n, hn'⟩ := unpairedPairs_cover (Gc := G.relabel lab) (pairs := aamPairs (G.relabel lab) H) hh
+        (fun p hp e => hun p.1 (by rw [← e]; exact hp))
+      rw [extOf_eq _ _ _ hh, pairMap_fullPairs _ H hGc hH.1 n h (List.mem_append_right _ hn')]
+      exact (mem_unpairedPairs hn').1 _ (by rw [ids_relabel]; exact List.mem_map_of_mem ha)
+  refine ⟨?_, ?_, ?_, hok⟩
+  · by_cases hn : H.nodes = []
+    · rw [canonRxnWith_def, hE hn]; simp
+    · obtain ⟨ρ, _, e, _⟩ := hok hn
+      rw [e]; simp
+  · by_cases hn : H.nodes = []
+    · rw [canonRxnWith_def, hE hn]; simp
+    · obtain ⟨ρ, _, e, _⟩ := hok hn
+      rw [e]; simp
+  · intro hn
+    rw [canonRxnWith_def, hE hn]
+
+/-- **C09, equivalence with product atoms without a reactant partner (repair of F23).** With
+`atom_map` = node id on both sides (positive on the reactant side) — the graphs `rsmi_to_graph`
+builds — well-formed `G`, `H ≠ ∅` where `H` may have atoms that `G` does not have (and vice versa),
+and a back-end labelling injective on the reactant atoms: the repaired canonicaliser succeeds, both
+sides are relabelled by ONE injective `σ` that extends `lab` and sends the product-only atoms above
+all canonical reactant ids, and the ITS graph of the output is isomorphic to that of the input. -/
+theorem canonRxnWith_unpaired_equiv (lab : Nat → Nat) (G H : LGraph) (hG : G.WF) (hH : H.WF) (hne : H.nodes ≠ [])
+    (hmG : ∀ p ∈ G.nodes, atomMapOf p.2 = 2 * (p.1 : Int)) (hmH : ∀ p ∈ H.nodes, atomMapOf p.2 = 2 * (p.1 : Int))
+    (hpos : ∀ v ∈ G.ids, 0 < v) (hinj : ∀ a ∈ G.ids, ∀ b ∈ G.ids, lab a = lab b → a = b) :
+    ∃ σ : Nat → Nat, Function.Injective σ ∧ (∀ v ∈ G.ids, σ v = lab v) ∧
+      (∀ v ∈ H.ids, v ∉ G.ids → ∀ a ∈ G.ids, lab a < σ v) ∧
+      canonRxnWith lab G H = .ok (sync (G.relabel σ), sync (H.relabel σ)) ∧
+      ∃ m, IsIso itsSel (itsOf (sync (G.relabel σ)) (sync (H.relabel σ))) (itsOf G H) m := by
+  obtain ⟨ρ, hρ, hres, hpair, hfresh⟩ := (canonRxnWith_unpaired_no_collision lab G H hG hH hinj).2.2.2 hne
+  have hmem := mem_aamPairs_idMapped lab G H hG.1 hH.1 hmG hmH hpos
+  have hfresh' : ∀ v ∈ H.ids, v ∉ G.ids → ∀ a ∈ G.ids, lab a < ρ v :=
+    fun v hv hvG => hfresh v hv (fun g hm => hvG ((hmem g v).1 hm).1)
+  let σ0 : Nat → Nat := fun v => if v ∈ G.ids then lab v else ρ v
+  have hσ0G : ∀ v ∈ G.ids, σ0 v = lab v := fun v hv => if_pos hv
+  have hσ0H : ∀ v, v ∉ G.ids → σ0 v = ρ v := fun v hv => if_neg hv
+  have hinj0 : ∀ a ∈ G.ids ++ H.ids, ∀ b ∈ G.ids ++ H.ids, σ0 a = σ0 b → a = b := by
+    intro a ha b hb hab
+    by_cases haG : a ∈ G.ids <;> by_cases hbG : b ∈ G.ids
+    · rw [hσ0G a haG, hσ0G b hbG] at hab; exact hinj a haG b hbG hab
+    · rw [hσ0G a haG, hσ0H b hbG] at hab
+      have hbH : b ∈ H.ids := (List.mem_append.1 hb).resolve_left hbG
+      have := hfresh' b hbH hbG a haG
+      omega
+    · rw [hσ0H a haG, hσ0G b hbG] at hab
+      have haH : a ∈ H.ids := (List.mem_append.1 ha).resolve_left haG
+      have := hfresh' a haH haG b hbG
+      omega
+    · rw [hσ0H a haG, hσ0H b hbG] at hab; exact hρ hab
+  have hσ := extOf_inj σ0 (G.ids ++ H.ids) hinj0
+  have hσG : ∀ v ∈ G.ids, extOf σ0 (G.ids ++ H.ids) v = lab v := by
+    intro v hv; rw [extOf_eq _ _ _ (List.mem_append_left _ hv), hσ0G v hv]
+  have hσH : ∀ v ∈ H.ids, extOf σ0 (G.ids ++ H.ids) v = ρ v := by
+    intro v hv
+    rw [extOf_eq _ _ _ (List.mem_append_right _ hv)]
+    by_cases hvG : v ∈ G.ids
+    · rw [hσ0G v hvG, hpair (lab v) v ((hmem (lab v) v).2 ⟨hvG, hv, rfl⟩)]
+    · exact hσ0H v hvG
+  have eG : G.relabel lab = G.relabel (extOf σ0 (G.ids ++ H.ids)) :=
+    relabel_congr G _ _ (fun v hv => (hσG v hv).symm) (fun e he => ⟨(hG.2.1 e he).1, (hG.2.1 e he).2.1⟩)
+  have eH : H.relabel ρ = H.relabel (extOf σ0 (G.ids ++ H.ids)) :=
+    relabel_congr H _ _ (fun v hv => (hσH v hv).symm) (fun e he => ⟨(hH.2.1 e he).1, (hH.2.1 e he).2.1⟩)
+  refine ⟨extOf σ0 (G.ids ++ H.ids), hσ, hσG, ?_, ?_, ?_⟩
+  · intro v hv hvG a ha
+    rw [hσH v hv]; exact hfresh' v hv hvG a ha
+  · rw [hres, eG, eH]
+  · rw [itsOf_sync, itsOf_relabel hσ]
+    exact ⟨_, isIso_relabel hσ itsSel _ (itsOf_wf G H hG hH)⟩
+
 /-- **C09, atom order (canonical order).** The canonical order depends on the *set* of node ids
 and on the key only, not on the order in which the atoms are listed. -/
 theorem canonOrder_atom_order_indep (key : LGraph → Nat → Nat) (G G₂ : LGraph) (hp : G₂.ids.Perm G.ids)
@@ -205,6 +305,25 @@ example : KeyInjectiveOn hKey exG := by unfold KeyInjectiveOn; decide
 /-- the canonical order puts OH (1 H) first, then CH2, then CH3: ids 3, 2, 1 become 1, 2, 3. -/
 example : (canonRxn hKey exG exH).toOption.map (fun o => (o.1.ids, o.2.ids)) = some ([3, 2, 1], [3, 2, 1]) := by
   decide
+/-- `[CH3:1][OH:4]>>[CH3:1][OH:4].[OH2:2]`: the water oxygen (map 2) has no reactant partner. -/
+def exG2 : LGraph :=
+  { nodes := [(1, exAtom "C" 3 1), (4, exAtom "O" 1 4)], edges := [(1, 4, exBond 2)] }
+def exH2 : LGraph :=
+  { nodes := [(1, exAtom "C" 3 1), (4, exAtom "O" 1 4), (2, exAtom "O" 2 2)], edges := [(1, 4, exBond 2)] }
+
+/-- the hypotheses of `canonRxnWith_unpaired_no_collision` / `_equiv` hold, the reaction is not fully mapped … -/
+example : exG2.WF ∧ exH2.WF ∧ exH2.nodes ≠ [] ∧ ¬ FullyMapped exG2 exH2 ∧
+    (∀ p ∈ exG2.nodes, atomMapOf p.2 = 2 * (p.1 : Int)) ∧ (∀ p ∈ exH2.nodes, atomMapOf p.2 = 2 * (p.1 : Int)) ∧
+    (∀ v ∈ exG2.ids, 0 < v) ∧ KeyInjectiveOn hKey exG2 := by
+  unfold KeyInjectiveOn; decide
+/-- … before the repair (shared-map pairs only: OH 4 ↦ 1, CH3 1 ↦ 2, the water oxygen keeps 2) it collided … -/
+example : aamPairs (exG2.relabel (pos (canonOrder hKey exG2))) exH2 = [(2, 1), (1, 4)] ∧
+    remapGraph exH2 (aamPairs (exG2.relabel (pos (canonOrder hKey exG2))) exH2) = .error .collision := by decide
+/-- … and now the water oxygen gets the fresh id 3. -/
+example : unpairedPairs (exG2.relabel (pos (canonOrder hKey exG2))) exH2
+      (aamPairs (exG2.relabel (pos (canonOrder hKey exG2))) exH2) = [(3, 2)] ∧
+    (canonRxn hKey exG2 exH2).toOption.map (fun o => (o.1.ids, o.2.ids, o.2.edges.map fun e => (e.1, e.2.1))) =
+      some ([2, 1], [2, 1, 3], [(2, 1)]) := by decide
 example : aamCheck .its (renumber (· + 10) (exG, exH)) (exG, exH) = true := by decide
 /-- a transposition of two non-equivalent centre atoms on the product side is rejected by both methods. -/
 example : aamCheck .its (exG, exHswapCO) (exG, exH) = false ∧ aamCheck .rc (exG, exHswapCO) (exG, exH) = false := by
